@@ -534,7 +534,14 @@ class Exec:
                 raise Unsupported('unknown attribute %s.%s' % (base[1], attr))
             return r
         if tag(base) == 'ext':
-            return ('ext', base[1] + '.' + attr)
+            full = base[1] + '.' + attr
+            if full in self.prog.modules:
+                return ('module', full)
+            if full in self.prog.funcs:
+                return ('func', full)
+            if full in self.prog.classes:
+                return ('class', full)
+            return ('ext', full)
         pv = st.deref(base)
         if isinstance(pv, SObj):
             if attr in pv.attrs:
@@ -917,6 +924,8 @@ class Exec:
 
     def inline(self, q, args, kw, st, node):
         fi = self.prog.funcs[q]
+        if any(ast.unparse(d) != 'staticmethod' for d in fi.node.decorator_list):
+            raise Unsupported('inlined callee %s is wrapped by a decorator' % q)
         if self.call_depth > 6:
             raise Unsupported('inlining depth (recursive function without contract?) ' + q)
         env = self.bind_args(fi.node, args, kw, st, q)
@@ -1210,6 +1219,8 @@ class Exec:
 
     def inline_multi(self, q, args, kw, st, node, k):
         fi = self.prog.funcs[q]
+        if any(ast.unparse(d) != 'staticmethod' for d in fi.node.decorator_list):
+            raise Unsupported('inlined callee %s is wrapped by a decorator' % q)
         if self.call_depth > 6:
             raise Unsupported('inlining depth ' + q)
         env = self.bind_args(fi.node, args, kw, st, q)
